@@ -50,3 +50,51 @@ package kvql
 //@   assigns pcur(p.ChildPlan), nops, failed, lastErr
 //@   ensures[C13] readonly: nmut == old(nmut)
 //@   ensures[C13] surfaced: (failed ==> err == lastErr) && (err == nil ==> !failed)
+//
+// ---------------------------------------------------------------------------------------------
+// Batch mode. The column of a field comes either from the final-result cache of the scan batch
+// (A-CHUNKCACHE: what the scan left there under the field's name is that field's column for the
+// returned pairs, at least as long as the chunk - the interface clause `finalcols` of Plan.Batch is
+// an assumption about the scans) or from evaluating the field on the returned pairs. Proved: one
+// row per returned pair, one column per field, the evaluated columns hold the field's values, nothing
+// is written to the store and storage errors surface.
+//@ func (c *ExecuteCtx) GetChunkFieldFinalResult(name string) (col []any, have bool)
+//@   props C05 C03
+//@   requires c != nil
+//@   assigns nothing
+//@   ensures[C05, C03] hit: have ==> c.EnableCache && has(c.FieldChunkCaches, val(name)) && col == c.FieldChunkCaches[val(name)]
+//
+//@ func (p *ProjectionPlan) processProjectionBatch(chunk []KVPair, ctx *ExecuteCtx) (ret [][]Column, err error)
+//@   props C05 C03 C13
+//@   ghost r Int, k Int
+//@   requires wfProj(p) && len(chunk) > 0
+//@   requires finalcols: ctx != nil && ctx.EnableCache ==> (forall q B :: has(ctx.FieldChunkCaches, q) ==> len(ctx.FieldChunkCaches[q]) >= len(chunk))
+//@   assigns ctx.Hit, mapof(ctx.FieldCaches), mapof(ctx.FieldChunkKeyCaches), mapof(ctx.FieldChunkCaches)
+//@   ensures[C05, C03] width: err == nil ==> len(ret) == len(chunk) && fresh(ret) && (0 <= r && r < len(chunk) ==> len(ret[r]) == len(p.Fields))
+//@   ensures[C13] quiet: nops == old(nops) && failed == old(failed)
+//@   loop 0
+//@     invariant 0 <= i && i <= nFields && nFields == len(p.Fields) && len(cols) == nFields && fresh(cols) && len(ret) == len(chunk) && fresh(ret) && ptr(ret) != ptr(cols) && err == nil
+//@     invariant forall q Int :: 0 <= q && q < i ==> len(cols[q]) >= len(chunk)
+//@     invariant finalcols: ctx != nil && ctx.EnableCache ==> (forall q B :: has(ctx.FieldChunkCaches, q) ==> len(ctx.FieldChunkCaches[q]) >= len(chunk))
+//@   loop 1
+//@     invariant 0 <= local(i#2) && local(i#2) <= len(chunk) && nFields == len(p.Fields) && len(cols) == nFields && fresh(cols) && len(ret) == len(chunk) && fresh(ret) && ptr(ret) != ptr(cols)
+//@     invariant forall q Int :: 0 <= q && q < nFields ==> len(cols[q]) >= len(chunk)
+//@     invariant[C05, C03] rows: 0 <= r && r < local(i#2) ==> len(ret[r]) == nFields
+//@   loop 2
+//@     invariant 0 <= local(i#2) && local(i#2) < len(chunk) && 0 <= j && j <= nFields && nFields == len(p.Fields) && len(cols) == nFields && fresh(cols) && len(ret) == len(chunk) && fresh(ret) && ptr(ret) != ptr(cols) && fresh(row) && len(row) == nFields
+//@     invariant forall q Int :: 0 <= q && q < nFields ==> len(cols[q]) >= len(chunk)
+//@     invariant[C05, C03] rows: 0 <= r && r < local(i#2) ==> len(ret[r]) == nFields
+//
+//@ func (p *ProjectionPlan) Batch(ctx *ExecuteCtx) (ret [][]Column, err error)
+//@   props C05 C03 C13
+//@   ghost r Int
+//@   requires wfProj(p) && ctx != nil && !failed && wfCursor(p.ChildPlan)
+//@   assigns pcur(p.ChildPlan), nops, failed, lastErr, ctx.Hit, mapof(ctx.FieldCaches), mapof(ctx.FieldChunkKeyCaches), mapof(ctx.FieldChunkCaches)
+//@   ensures[C05, C03] rows: err == nil ==> len(ret) == pcur(p.ChildPlan) - old(pcur(p.ChildPlan)) && ((len(ret) == 0) == (old(pcur(p.ChildPlan)) >= plen(p.ChildPlan)))
+//@   ensures[C05, C03] width: err == nil && 0 <= r && r < len(ret) ==> len(ret[r]) == ite(p.AllFields, 2, len(p.Fields))
+//@   ensures[C05, C03] star: err == nil && p.AllFields && 0 <= r && r < len(ret) ==> ret[r][0] == ABytes(pseq(p.ChildPlan, old(pcur(p.ChildPlan)) + r).Key) && ret[r][1] == ABytes(pseq(p.ChildPlan, old(pcur(p.ChildPlan)) + r).Value)
+//@   ensures[C13] readonly: nmut == old(nmut)
+//@   ensures[C13] surfaced: (failed ==> err == lastErr) && (err == nil ==> !failed)
+//@   loop 0 (kvp)
+//@     invariant len(ret) == rangeindex + 1 && fresh(ret) && len(kvps) == pcur(p.ChildPlan) - old(pcur(p.ChildPlan)) && !failed && nmut == old(nmut)
+//@     invariant 0 <= r && r <= rangeindex ==> len(ret[r]) == 2 && ret[r][0] == ABytes(kvps[r].Key) && ret[r][1] == ABytes(kvps[r].Value)
